@@ -66,6 +66,7 @@ def _classes():
         n: int = 0
         r0: Any = None
         r1: Any = None
+        uid: int = -1   # the harness' number of the instance (what attribute-selecting queries return)
 
     @dataclass(eq=False)
     class B(A):
@@ -90,6 +91,7 @@ def _classes():
     @dataclass(eq=False)
     class G(Symbol):
         n: int = 0
+        uid: int = -1
 
     @dataclass
     class H(A):  # value-equal instances (n in {0, 1}); wrappers of such instances compare equal
@@ -115,7 +117,7 @@ def run_history(hist: List[list]) -> Dict[str, Any]:
     and the observation (census, container sizes, relations between existing instances, expression-table growth)."""
     import gc
     import weakref
-    from krrood.entity_query_language.entity import entity, let
+    from krrood.entity_query_language.entity import entity, let, set_of
     from krrood.entity_query_language.quantify_entity import an
     from krrood.entity_query_language.symbol_graph import SymbolGraph, PredicateClassRelation
     from krrood.entity_query_language.symbolic import SymbolicExpression
@@ -124,11 +126,33 @@ def run_history(hist: List[list]) -> Dict[str, Any]:
     gc.collect()
     SymbolGraph().clear()
     SymbolGraph()
+    SIZE = {None: 3, "attr": 4, "setof": 5}   # expression objects per query form (Variable, [Attribute..], descriptor, An)
+    expected_exprs = 0
+    qkey: Dict[int, Any] = {}                 # query object -> (form, selected expression to read a row with)
+
+    def make_query(T, form):
+        """the domain-less variable selected directly, or reached ONLY through selected attributes (no condition on it)"""
+        x = let(cl[T], None)
+        if form == "attr":
+            return an(entity(x.uid)), None
+        if form == "setof":
+            xu = x.uid
+            return an(set_of([xu, x.n])), xu
+        return an(entity(x)), None
+
+    def rows(form, key, res):
+        """rows -> instance numbers (attribute forms return the uid attribute = the harness' number of the instance)"""
+        if form is None:
+            return number(res)
+        vals = [r if form == "attr" else r[key] for r in res]
+        return [(v if isinstance(v, int) and v in wref and wref[v]() is not None else -2) for v in vals]
+
     objs: Dict[int, Any] = {}
     wref: Dict[int, Any] = {}
     qs: Dict[int, Any] = {}
     keep = {op[1] for op in hist if op[0] in ("Eval", "ReEval", "Start")}
     its: Dict[int, Any] = {}
+    itq: Dict[int, int] = {}
     nq = 0
     nnew = 0
     emap = SymbolicExpression._id_expression_map_
@@ -152,7 +176,7 @@ def run_history(hist: List[list]) -> Dict[str, Any]:
         try:
             if kind == "New":
                 c = op[1]
-                o = cl[c](n=(nnew % 2 if c == 7 else nnew))
+                o = cl[c](n=(nnew % 2 if c == 7 else nnew), uid=nnew)
                 objs[nnew] = o
                 wref[nnew] = weakref.ref(o)
                 nnew += 1
@@ -170,9 +194,12 @@ def run_history(hist: List[list]) -> Dict[str, Any]:
                 out = [1, number(res)]
                 del res
             elif kind == "QueryE":
-                q = an(entity(let(cl[op[1]], None)))
+                form = op[2] if len(op) > 2 else None
+                q, key = make_query(op[1], form)
+                expected_exprs += SIZE[form]
+                qkey[nq] = (form, key)
                 res = list(q.evaluate())
-                out = [1, number(res)]
+                out = [1, rows(form, key, res)]
                 del res
                 if nq in keep:
                     qs[nq] = q
@@ -181,22 +208,26 @@ def run_history(hist: List[list]) -> Dict[str, Any]:
             elif kind == "Declare":
                 # let(T, None) is called and the query object built, nothing is evaluated; the program keeps the query
                 # object only if the history evaluates it later
-                q = an(entity(let(cl[op[1]], None)))
+                form = op[2] if len(op) > 2 else None
+                q, key = make_query(op[1], form)
+                expected_exprs += SIZE[form]
+                qkey[nq] = (form, key)
                 if nq in keep:
                     qs[nq] = q
                 nq += 1
                 del q
             elif kind in ("Eval", "ReEval"):
                 res = list(qs[op[1]].evaluate())
-                out = [1, number(res)]
+                out = [1, rows(*qkey[op[1]], res)]
                 del res
             elif kind == "Start":
                 # a live evaluation: the iterator is created, nothing runs before the first row is requested
+                itq[len(its)] = op[1]
                 its[len(its)] = qs[op[1]].evaluate()
             elif kind == "Next":
                 try:
                     x = next(its[op[1]])
-                    out = [1, number([x])]
+                    out = [1, rows(*qkey[itq[op[1]]], [x])]
                     del x
                 except StopIteration:
                     out = [1, []]
@@ -231,7 +262,7 @@ def run_history(hist: List[list]) -> Dict[str, Any]:
         d = len(emap) - base
         steps.append({"ob": ob, "out": out, "census": census, "sizes": sizes,
                       "rels": sorted([list(t) for t in {tuple(r) for r in rels}]),
-                      "nvars": d // 3 if d % 3 == 0 else -d})
+                      "nvars": nq if d == expected_exprs else -d - 1})
     objs.clear()
     for it in its.values():
         it.close()
@@ -403,6 +434,9 @@ def run_loop(payload) -> Dict[str, Any]:
             n = len(list(SymbolGraph().get_instances_of_type(cl[0])))
         elif mode == "eql":
             n = len(list(an(entity(let(cl[0], None))).evaluate()))
+        elif mode == "eql_attr":
+            # the variable is reached only through the selected attribute
+            n = len(list(an(entity(let(cl[0], None).uid)).evaluate()))
         elif mode == "eql_domain":
             n = len(list(an(entity(let(cl[0], xs))).evaluate()))
         elif mode == "declare":
@@ -505,6 +539,8 @@ def op_term(op: list, ob: List[int], out=None) -> str:
         return k
     if k == "Declare":
         return f"DeclV {op[1]}"
+    if k == "QueryE":
+        return f"QueryE {op[1]}"     # the query form (variable / attribute / set_of of attributes) does not change the meaning
     if k in ("Eval", "ReEval"):
         return f"EvalV {op[1]}"
     return f"{k} {op[1]}"
@@ -594,7 +630,7 @@ def gen_history(rng: core.Rng, profile: str, nmin=4, nmax=16) -> List[list]:
             hist.append(["New", rng.choice(clss)])
             user.append(nnew)
             nnew += 1
-        hist.append(["Declare", rng.choice([0, 0, 1, 2])])
+        hist.append(["Declare", rng.choice([0, 0, 1, 2])] + rng.choice([[], [], ["attr"], ["setof"]]))
         nq = 1
         hist.append(["Start", 0])
         open_e.append(0)
@@ -613,9 +649,13 @@ def gen_history(rng: core.Rng, profile: str, nmin=4, nmax=16) -> List[list]:
         elif k == "Sweep":
             hist.append(["Sweep"])
         elif k in ("QueryG", "QueryE", "Declare"):
-            hist.append([k, rng.choice(QUERY_TYPES)])
+            o = [k, rng.choice(QUERY_TYPES)]
             if k != "QueryG":
                 nq += 1
+                f = rng.next() % 20       # 60% the variable itself, 25% an attribute of it, 15% a set_of of attributes
+                if f >= 12:
+                    o.append("attr" if f < 17 else "setof")
+            hist.append(o)
         elif k == "Eval":
             if nq == 0:
                 continue
